@@ -5,6 +5,7 @@ package db
 import (
 	"context"
 	"fmt"
+	"os"
 	"sort"
 	"strings"
 	"testing"
@@ -107,6 +108,7 @@ func (r *c13Run) syncOpen(rep *vreport.Report) map[string]string {
 	uc.user = u
 	deadline := time.After(30 * time.Second)
 	round := 0
+	settled := false
 	for {
 		select {
 		case entry, ok := <-r.open.feed:
@@ -123,6 +125,9 @@ func (r *c13Run) syncOpen(rep *vreport.Report) map[string]string {
 			}
 			if entry.ID == marker {
 				r.last = entry.Seq
+				if settled {
+					return viol
+				}
 				probe := map[string]string{}
 				r.compare("open", &uc, probe)
 				if len(probe) > 0 && round < 6 {
@@ -140,6 +145,19 @@ func (r *c13Run) syncOpen(rep *vreport.Report) map[string]string {
 				}
 				for k, v := range probe {
 					viol[k] = v
+				}
+				if !settled {
+					// one more marker round without judging: when it has come through, the feed has consumed every
+					// notification raised so far and is back in its wait, so that the next world event meets an idle
+					// feed (deterministically) instead of racing the feed's pending user reloads
+					settled = true
+					r.markerN++
+					marker = r.n(fmt.Sprintf("mk%d", r.markerN))
+					if _, _, err := e.coll.Put(e.ctx, marker, Body{"channels": []string{"!"}}); err != nil {
+						viol["C13/harness/marker"] = err.Error()
+						return viol
+					}
+					continue
 				}
 				return viol
 			}
@@ -572,6 +590,15 @@ func (e *c13Env) run(t testing.TB, r *vreport.Report, hist []string) {
 				return
 			}
 			defer run.open.cancel()
+			// let the pull establish itself (its goroutine creates the change waiter and reloads the user) and catch up
+			// before the next world event, so that the event meets a running, idle feed rather than racing its start-up
+			c13WaitFeed(e)
+			for fp, d := range run.syncOpen(r) {
+				r.Violate(fp, d, c13Case{Hist: hist[:i+1]})
+			}
+			if run.abandoned {
+				return
+			}
 			continue
 		}
 		if strings.HasPrefix(sym, "pull:") && run.open != nil {
@@ -744,7 +771,9 @@ func TestVerifC13(t *testing.T) {
 				rec(append(append([]string{}, w...), s))
 			}
 		}
-		rec(nil)
+		if os.Getenv("VERIF_C13_SECTION") == "" {
+			rec(nil)
+		}
 	}
 	// histories that continue from a populated world: the user has channel A directly and B through a role, six documents
 	// are in A (so that revocation and back-fill queries span several pages of 2) and one in both; the client has pulled
@@ -784,7 +813,9 @@ func TestVerifC13(t *testing.T) {
 			rec2(append(append([]string{}, w...), s))
 		}
 	}
-	rec2(nil)
+	if os.Getenv("VERIF_C13_SECTION") == "" {
+		rec2(nil)
+	}
 	// open (continuous) pulls: the client opens one pull after a base history and keeps it open; after every further
 	// event it waits until the feed has caught up (marker document) and the replica is judged
 	openBases := [][]string{
@@ -809,6 +840,9 @@ func TestVerifC13(t *testing.T) {
 				hist := append([]string{}, ob...)
 				for _, s := range w {
 					hist = append(hist, s, "pull:0")
+				}
+				if f := os.Getenv("VERIF_C13_FILTER"); f != "" && !strings.Contains(strings.Join(hist, ","), f) {
+					return
 				}
 				if e.n%100 == 99 {
 					fresh()
